@@ -34,51 +34,53 @@ package parser
 //@ func parser.advance
 //@   tags C04 C10 C09
 //@   assigns p.curr, p.next, p.lex, fam:G_pos, fam:G_toks
-//@   requires pi: p.curr.Type == tokT(ppos) && p.next.Type == tokT(ppos + 1) && tokOK(p.curr.Type, p.curr.Value) && tokOK(p.next.Type, p.next.Value)
+//@   requires pi: p.curr.Type == tokT(ppos) && p.next.Type == tokT(ppos + 1) && tokOK(p.curr.Type, p.curr.Value) && tokOK(p.next.Type, p.next.Value) && 0 <= p.lex.position && p.lex.position <= len(p.lex.expression)
 //@   ensures shift: result == nil ==> p.curr == old(p.next)
-//@   ensures tokens: result == nil ==> tokOK(p.curr.Type, p.curr.Value) && tokOK(p.next.Type, p.next.Value)
+//@   ensures tokens: result == nil ==> tokOK(p.curr.Type, p.curr.Value) && tokOK(p.next.Type, p.next.Value) && 0 <= p.lex.position && p.lex.position <= len(p.lex.expression)
 //@   defines result == nil ==> ppos == old(ppos) + 1 && toks() == old(toks()) && p.next.Type == tokT(ppos + 1)
 //@   defines result != nil ==> ppos == old(ppos) && toks() == old(toks())
 
 //@ func parser.advance2
 //@   tags C04 C10 C09
 //@   assigns p.curr, p.next, p.lex, fam:G_pos, fam:G_toks
-//@   requires pi: p.curr.Type == tokT(ppos) && p.next.Type == tokT(ppos + 1) && tokOK(p.curr.Type, p.curr.Value) && tokOK(p.next.Type, p.next.Value)
-//@   ensures tokens: result == nil ==> tokOK(p.curr.Type, p.curr.Value) && tokOK(p.next.Type, p.next.Value)
+//@   requires pi: p.curr.Type == tokT(ppos) && p.next.Type == tokT(ppos + 1) && tokOK(p.curr.Type, p.curr.Value) && tokOK(p.next.Type, p.next.Value) && 0 <= p.lex.position && p.lex.position <= len(p.lex.expression)
+//@   ensures tokens: result == nil ==> tokOK(p.curr.Type, p.curr.Value) && tokOK(p.next.Type, p.next.Value) && 0 <= p.lex.position && p.lex.position <= len(p.lex.expression)
 //@   defines result == nil ==> ppos == old(ppos) + 2 && toks() == old(toks()) && p.curr.Type == tokT(ppos) && p.next.Type == tokT(ppos + 1)
 //@   defines result != nil ==> ppos == old(ppos) && toks() == old(toks())
 
 //@ func parser.setCurrent
 //@   tags C04
 //@   assigns p.curr, fam:G_toks
-//@   ensures p.curr == tok && p.next == old(p.next)
+//@   ensures p.curr == tok && p.next == old(p.next) && p.lex == old(p.lex)
 //@   defines toks() == upd(old(toks()), ppos, tok.Type)
 
 //@ func parser.parse
 //@   tags C04 C09
 //@   assigns p.curr, p.next, p.lex, fam:G_pos, fam:G_toks
-//@   requires pi: p.curr.Type == tokT(ppos) && p.next.Type == tokT(ppos + 1) && tokOK(p.curr.Type, p.curr.Value) && tokOK(p.next.Type, p.next.Value)
+//@   requires pi: p.curr.Type == tokT(ppos) && p.next.Type == tokT(ppos + 1) && tokOK(p.curr.Type, p.curr.Value) && tokOK(p.next.Type, p.next.Value) && 0 <= p.lex.position && p.lex.position <= len(p.lex.expression)
 //@   ensures[C04] end: result1 == nil ==> p.curr.Type == const("lexer.EndToken") && result0 != nil
 
 //@ func parser.filter
 //@   tags C04 C09
 //@   assigns p.curr, p.next, p.lex, fam:G_pos, fam:G_toks
-//@   requires pi: p.curr.Type == tokT(ppos) && p.next.Type == tokT(ppos + 1) && tokOK(p.curr.Type, p.curr.Value) && tokOK(p.next.Type, p.next.Value)
-//@   ensures pi: result1 == nil ==> p.curr.Type == tokT(ppos) && p.next.Type == tokT(ppos + 1) && tokOK(p.curr.Type, p.curr.Value) && tokOK(p.next.Type, p.next.Value)
+//@   requires pi: p.curr.Type == tokT(ppos) && p.next.Type == tokT(ppos + 1) && tokOK(p.curr.Type, p.curr.Value) && tokOK(p.next.Type, p.next.Value) && 0 <= p.lex.position && p.lex.position <= len(p.lex.expression)
+//@   ensures pi: result1 == nil ==> p.curr.Type == tokT(ppos) && p.next.Type == tokT(ppos + 1) && tokOK(p.curr.Type, p.curr.Value) && tokOK(p.next.Type, p.next.Value) && 0 <= p.lex.position && p.lex.position <= len(p.lex.expression)
 //@   ensures[C04] close: result1 == nil ==> tokT(ppos - 1) == const("lexer.CloseSqBraceToken") && ppos > old(ppos) + 1
 
 //@ func parser.expression
 //@   tags C10 C04 C09
 //@   assigns p.curr, p.next, p.lex, fam:G_pos, fam:G_toks
-//@   requires pi: p.curr.Type == tokT(ppos) && p.next.Type == tokT(ppos + 1) && tokOK(p.curr.Type, p.curr.Value) && tokOK(p.next.Type, p.next.Value)
-//@   ensures pi: result1 == nil ==> p.curr.Type == tokT(ppos) && p.next.Type == tokT(ppos + 1) && tokOK(p.curr.Type, p.curr.Value) && tokOK(p.next.Type, p.next.Value)
+//@   requires pi: p.curr.Type == tokT(ppos) && p.next.Type == tokT(ppos + 1) && tokOK(p.curr.Type, p.curr.Value) && tokOK(p.next.Type, p.next.Value) && 0 <= p.lex.position && p.lex.position <= len(p.lex.expression)
+//@   ensures pi: result1 == nil ==> p.curr.Type == tokT(ppos) && p.next.Type == tokT(ppos + 1) && tokOK(p.curr.Type, p.curr.Value) && tokOK(p.next.Type, p.next.Value) && 0 <= p.lex.position && p.lex.position <= len(p.lex.expression)
 //@   ensures[C09] progress: result1 == nil ==> ppos > old(ppos) && result0 != nil
 //@   ensures[C10] stop: result1 == nil ==> precOf(p.curr.Type) <= prec || !infixTok(p.curr.Type)
 //@   at advance#* assert[C10] tighter: precOf(p.curr.Type) > prec
 //@   at advance2#* assert[C10] tighter: precOf(p.curr.Type) > prec
 //@   at expression#* assert[C10] leftassoc: arg1 == precOf(tokT(ppos - 1))
 //@   loop 1
-//@     invariant p.curr.Type == tokT(ppos) && p.next.Type == tokT(ppos + 1) && tokOK(p.curr.Type, p.curr.Value) && tokOK(p.next.Type, p.next.Value)
+//@     invariant p.curr.Type == tokT(ppos) && p.next.Type == tokT(ppos + 1)
+//@     invariant tokOK(p.curr.Type, p.curr.Value) && tokOK(p.next.Type, p.next.Value)
+//@     invariant 0 <= p.lex.position && p.lex.position <= len(p.lex.expression)
 //@     invariant ppos > old(ppos)
 //@     invariant newPrec == precOf(p.curr.Type)
 //@     invariant node != nil
@@ -86,58 +88,58 @@ package parser
 //@ func parser.primaryExpression
 //@   tags C10 C04 C09
 //@   assigns p.curr, p.next, p.lex, fam:G_pos, fam:G_toks
-//@   requires pi: p.curr.Type == tokT(ppos) && p.next.Type == tokT(ppos + 1) && tokOK(p.curr.Type, p.curr.Value) && tokOK(p.next.Type, p.next.Value)
-//@   ensures pi: result1 == nil ==> p.curr.Type == tokT(ppos) && p.next.Type == tokT(ppos + 1) && tokOK(p.curr.Type, p.curr.Value) && tokOK(p.next.Type, p.next.Value)
+//@   requires pi: p.curr.Type == tokT(ppos) && p.next.Type == tokT(ppos + 1) && tokOK(p.curr.Type, p.curr.Value) && tokOK(p.next.Type, p.next.Value) && 0 <= p.lex.position && p.lex.position <= len(p.lex.expression)
+//@   ensures pi: result1 == nil ==> p.curr.Type == tokT(ppos) && p.next.Type == tokT(ppos + 1) && tokOK(p.curr.Type, p.curr.Value) && tokOK(p.next.Type, p.next.Value) && 0 <= p.lex.position && p.lex.position <= len(p.lex.expression)
 //@   ensures[C09] progress: result1 == nil ==> ppos > old(ppos) && result0 != nil
 //@   at expression#* assert[C10] prefix: arg1 == 1 || arg1 >= precOf(const("lexer.MultiplyToken"))
 
 //@ func parser.projection
 //@   tags C04 C09 C01
 //@   assigns p.curr, p.next, p.lex, fam:G_pos, fam:G_toks
-//@   requires pi: p.curr.Type == tokT(ppos) && p.next.Type == tokT(ppos + 1) && tokOK(p.curr.Type, p.curr.Value) && tokOK(p.next.Type, p.next.Value)
-//@   ensures pi: result1 == nil ==> p.curr.Type == tokT(ppos) && p.next.Type == tokT(ppos + 1) && tokOK(p.curr.Type, p.curr.Value) && tokOK(p.next.Type, p.next.Value)
+//@   requires pi: p.curr.Type == tokT(ppos) && p.next.Type == tokT(ppos + 1) && tokOK(p.curr.Type, p.curr.Value) && tokOK(p.next.Type, p.next.Value) && 0 <= p.lex.position && p.lex.position <= len(p.lex.expression)
+//@   ensures pi: result1 == nil ==> p.curr.Type == tokT(ppos) && p.next.Type == tokT(ppos + 1) && tokOK(p.curr.Type, p.curr.Value) && tokOK(p.next.Type, p.next.Value) && 0 <= p.lex.position && p.lex.position <= len(p.lex.expression)
 //@   ensures[C09] progress: result1 == nil && result0 != nil ==> ppos > old(ppos)
 //@   ensures none: result1 == nil && result0 == nil ==> ppos == old(ppos) && toks() == old(toks())
 //@   loop 1
-//@     invariant p.curr.Type == tokT(ppos) && p.next.Type == tokT(ppos + 1) && tokOK(p.curr.Type, p.curr.Value) && tokOK(p.next.Type, p.next.Value) && ppos > old(ppos) && newPrec == precOf(p.curr.Type) && node != nil
+//@     invariant p.curr.Type == tokT(ppos) && p.next.Type == tokT(ppos + 1) && tokOK(p.curr.Type, p.curr.Value) && tokOK(p.next.Type, p.next.Value) && 0 <= p.lex.position && p.lex.position <= len(p.lex.expression) && ppos > old(ppos) && newPrec == precOf(p.curr.Type) && node != nil
 
 //@ func parser.index
 //@   tags C04 C09 C12
 //@   assigns p.curr, p.next, p.lex, fam:G_pos, fam:G_toks
-//@   requires pi: p.curr.Type == tokT(ppos) && p.next.Type == tokT(ppos + 1) && tokOK(p.curr.Type, p.curr.Value) && tokOK(p.next.Type, p.next.Value)
-//@   ensures pi: result2 == nil ==> p.curr.Type == tokT(ppos) && p.next.Type == tokT(ppos + 1) && tokOK(p.curr.Type, p.curr.Value) && tokOK(p.next.Type, p.next.Value)
+//@   requires pi: p.curr.Type == tokT(ppos) && p.next.Type == tokT(ppos + 1) && tokOK(p.curr.Type, p.curr.Value) && tokOK(p.next.Type, p.next.Value) && 0 <= p.lex.position && p.lex.position <= len(p.lex.expression)
+//@   ensures pi: result2 == nil ==> p.curr.Type == tokT(ppos) && p.next.Type == tokT(ppos + 1) && tokOK(p.curr.Type, p.curr.Value) && tokOK(p.next.Type, p.next.Value) && 0 <= p.lex.position && p.lex.position <= len(p.lex.expression)
 //@   ensures[C04] close: result2 == nil ==> tokT(ppos - 1) == const("lexer.CloseSqBraceToken") && ppos > old(ppos) && result0 != nil
 
 //@ func parser.selectArray
 //@   tags C04 C09
 //@   assigns p.curr, p.next, p.lex, fam:G_pos, fam:G_toks
-//@   requires pi: p.curr.Type == tokT(ppos) && p.next.Type == tokT(ppos + 1) && tokOK(p.curr.Type, p.curr.Value) && tokOK(p.next.Type, p.next.Value)
-//@   ensures pi: result1 == nil ==> p.curr.Type == tokT(ppos) && p.next.Type == tokT(ppos + 1) && tokOK(p.curr.Type, p.curr.Value) && tokOK(p.next.Type, p.next.Value)
+//@   requires pi: p.curr.Type == tokT(ppos) && p.next.Type == tokT(ppos + 1) && tokOK(p.curr.Type, p.curr.Value) && tokOK(p.next.Type, p.next.Value) && 0 <= p.lex.position && p.lex.position <= len(p.lex.expression)
+//@   ensures pi: result1 == nil ==> p.curr.Type == tokT(ppos) && p.next.Type == tokT(ppos + 1) && tokOK(p.curr.Type, p.curr.Value) && tokOK(p.next.Type, p.next.Value) && 0 <= p.lex.position && p.lex.position <= len(p.lex.expression)
 //@   ensures[C04] close: result1 == nil ==> tokT(ppos - 1) == const("lexer.CloseSqBraceToken") && ppos > old(ppos) && result0 != nil
 //@   loop 1
-//@     invariant p.curr.Type == tokT(ppos) && p.next.Type == tokT(ppos + 1) && tokOK(p.curr.Type, p.curr.Value) && tokOK(p.next.Type, p.next.Value) && fresh(fields)
+//@     invariant p.curr.Type == tokT(ppos) && p.next.Type == tokT(ppos + 1) && tokOK(p.curr.Type, p.curr.Value) && tokOK(p.next.Type, p.next.Value) && 0 <= p.lex.position && p.lex.position <= len(p.lex.expression) && fresh(fields)
 //@     invariant[C04] separator: ppos == old(ppos) || (tokT(ppos - 1) == const("lexer.CommaToken") && ppos > old(ppos))
 
 //@ func parser.selectObject
 //@   tags C04 C09
 //@   assigns p.curr, p.next, p.lex, fam:G_pos, fam:G_toks
-//@   requires pi: p.curr.Type == tokT(ppos) && p.next.Type == tokT(ppos + 1) && tokOK(p.curr.Type, p.curr.Value) && tokOK(p.next.Type, p.next.Value)
-//@   ensures pi: result1 == nil ==> p.curr.Type == tokT(ppos) && p.next.Type == tokT(ppos + 1) && tokOK(p.curr.Type, p.curr.Value) && tokOK(p.next.Type, p.next.Value)
+//@   requires pi: p.curr.Type == tokT(ppos) && p.next.Type == tokT(ppos + 1) && tokOK(p.curr.Type, p.curr.Value) && tokOK(p.next.Type, p.next.Value) && 0 <= p.lex.position && p.lex.position <= len(p.lex.expression)
+//@   ensures pi: result1 == nil ==> p.curr.Type == tokT(ppos) && p.next.Type == tokT(ppos + 1) && tokOK(p.curr.Type, p.curr.Value) && tokOK(p.next.Type, p.next.Value) && 0 <= p.lex.position && p.lex.position <= len(p.lex.expression)
 //@   ensures[C04] close: result1 == nil ==> tokT(ppos - 1) == const("lexer.CloseBraceToken") && ppos > old(ppos) && result0 != nil
 //@   at advance2#1 assert[C04] key: p.curr.Type == const("lexer.QuotedIdentifierToken") || p.curr.Type == const("lexer.UnquotedIdentifierToken")
 //@   loop 1
-//@     invariant p.curr.Type == tokT(ppos) && p.next.Type == tokT(ppos + 1) && tokOK(p.curr.Type, p.curr.Value) && tokOK(p.next.Type, p.next.Value)
+//@     invariant p.curr.Type == tokT(ppos) && p.next.Type == tokT(ppos + 1) && tokOK(p.curr.Type, p.curr.Value) && tokOK(p.next.Type, p.next.Value) && 0 <= p.lex.position && p.lex.position <= len(p.lex.expression)
 //@     invariant[C04] separator: ppos == old(ppos) || (tokT(ppos - 1) == const("lexer.CommaToken") && ppos > old(ppos))
 
 //@ func parser.let
 //@   tags C04 C09 C19
 //@   assigns p.curr, p.next, p.lex, fam:G_pos, fam:G_toks
-//@   requires pi: p.curr.Type == tokT(ppos) && p.next.Type == tokT(ppos + 1) && tokOK(p.curr.Type, p.curr.Value) && tokOK(p.next.Type, p.next.Value)
-//@   ensures pi: result1 == nil ==> p.curr.Type == tokT(ppos) && p.next.Type == tokT(ppos + 1) && tokOK(p.curr.Type, p.curr.Value) && tokOK(p.next.Type, p.next.Value)
+//@   requires pi: p.curr.Type == tokT(ppos) && p.next.Type == tokT(ppos + 1) && tokOK(p.curr.Type, p.curr.Value) && tokOK(p.next.Type, p.next.Value) && 0 <= p.lex.position && p.lex.position <= len(p.lex.expression)
+//@   ensures pi: result1 == nil ==> p.curr.Type == tokT(ppos) && p.next.Type == tokT(ppos + 1) && tokOK(p.curr.Type, p.curr.Value) && tokOK(p.next.Type, p.next.Value) && 0 <= p.lex.position && p.lex.position <= len(p.lex.expression)
 //@   ensures[C09] progress: result1 == nil ==> ppos > old(ppos) && result0 != nil
 //@   at advance2#1 assert[C04 C19] binding: p.curr.Type == const("lexer.VariableToken") && p.next.Type == const("lexer.AssignToken")
 //@   loop 1
-//@     invariant p.curr.Type == tokT(ppos) && p.next.Type == tokT(ppos + 1) && tokOK(p.curr.Type, p.curr.Value) && tokOK(p.next.Type, p.next.Value)
+//@     invariant p.curr.Type == tokT(ppos) && p.next.Type == tokT(ppos + 1) && tokOK(p.curr.Type, p.curr.Value) && tokOK(p.next.Type, p.next.Value) && 0 <= p.lex.position && p.lex.position <= len(p.lex.expression)
 //@     invariant[C04] separator: ppos == old(ppos) || (tokT(ppos - 1) == const("lexer.CommaToken") && ppos > old(ppos))
 
 // ---------------------------------------------------------------------------
@@ -146,84 +148,84 @@ package parser
 //@ func parser.function1Arg
 //@   tags C02 C04 C08 C09
 //@   assigns p.curr, p.next, p.lex, fam:G_pos, fam:G_toks
-//@   requires pi: p.curr.Type == tokT(ppos) && p.next.Type == tokT(ppos + 1) && tokOK(p.curr.Type, p.curr.Value) && tokOK(p.next.Type, p.next.Value)
-//@   ensures pi: result1 == nil ==> p.curr.Type == tokT(ppos) && p.next.Type == tokT(ppos + 1) && tokOK(p.curr.Type, p.curr.Value) && tokOK(p.next.Type, p.next.Value)
+//@   requires pi: p.curr.Type == tokT(ppos) && p.next.Type == tokT(ppos + 1) && tokOK(p.curr.Type, p.curr.Value) && tokOK(p.next.Type, p.next.Value) && 0 <= p.lex.position && p.lex.position <= len(p.lex.expression)
+//@   ensures pi: result1 == nil ==> p.curr.Type == tokT(ppos) && p.next.Type == tokT(ppos + 1) && tokOK(p.curr.Type, p.curr.Value) && tokOK(p.next.Type, p.next.Value) && 0 <= p.lex.position && p.lex.position <= len(p.lex.expression)
 //@   ensures[C04] close: result1 == nil ==> tokT(ppos - 1) == const("lexer.CloseParenToken") && ppos > old(ppos) && result0 != nil
 //@   ensures[C02 C08] noargs: old(p.curr.Type) == const("lexer.CloseParenToken") ==> isType(result1, "*github.com/woodsbury/jmespath/internal/parser.InvalidFunctionCallError")
 
 //@ func parser.function1To2Arg
 //@   tags C02 C04 C08 C09
 //@   assigns p.curr, p.next, p.lex, fam:G_pos, fam:G_toks
-//@   requires pi: p.curr.Type == tokT(ppos) && p.next.Type == tokT(ppos + 1) && tokOK(p.curr.Type, p.curr.Value) && tokOK(p.next.Type, p.next.Value)
-//@   ensures pi: result2 == nil ==> p.curr.Type == tokT(ppos) && p.next.Type == tokT(ppos + 1) && tokOK(p.curr.Type, p.curr.Value) && tokOK(p.next.Type, p.next.Value)
+//@   requires pi: p.curr.Type == tokT(ppos) && p.next.Type == tokT(ppos + 1) && tokOK(p.curr.Type, p.curr.Value) && tokOK(p.next.Type, p.next.Value) && 0 <= p.lex.position && p.lex.position <= len(p.lex.expression)
+//@   ensures pi: result2 == nil ==> p.curr.Type == tokT(ppos) && p.next.Type == tokT(ppos + 1) && tokOK(p.curr.Type, p.curr.Value) && tokOK(p.next.Type, p.next.Value) && 0 <= p.lex.position && p.lex.position <= len(p.lex.expression)
 //@   ensures[C04] close: result2 == nil ==> tokT(ppos - 1) == const("lexer.CloseParenToken") && ppos > old(ppos) && result0 != nil
 //@   ensures[C02 C08] noargs: old(p.curr.Type) == const("lexer.CloseParenToken") ==> isType(result2, "*github.com/woodsbury/jmespath/internal/parser.InvalidFunctionCallError")
 
 //@ func parser.function2Arg
 //@   tags C02 C04 C08 C09
 //@   assigns p.curr, p.next, p.lex, fam:G_pos, fam:G_toks
-//@   requires pi: p.curr.Type == tokT(ppos) && p.next.Type == tokT(ppos + 1) && tokOK(p.curr.Type, p.curr.Value) && tokOK(p.next.Type, p.next.Value)
-//@   ensures pi: result2 == nil ==> p.curr.Type == tokT(ppos) && p.next.Type == tokT(ppos + 1) && tokOK(p.curr.Type, p.curr.Value) && tokOK(p.next.Type, p.next.Value)
+//@   requires pi: p.curr.Type == tokT(ppos) && p.next.Type == tokT(ppos + 1) && tokOK(p.curr.Type, p.curr.Value) && tokOK(p.next.Type, p.next.Value) && 0 <= p.lex.position && p.lex.position <= len(p.lex.expression)
+//@   ensures pi: result2 == nil ==> p.curr.Type == tokT(ppos) && p.next.Type == tokT(ppos + 1) && tokOK(p.curr.Type, p.curr.Value) && tokOK(p.next.Type, p.next.Value) && 0 <= p.lex.position && p.lex.position <= len(p.lex.expression)
 //@   ensures[C04] close: result2 == nil ==> tokT(ppos - 1) == const("lexer.CloseParenToken") && ppos > old(ppos) && result0 != nil
 //@   ensures[C02 C08] noargs: old(p.curr.Type) == const("lexer.CloseParenToken") ==> isType(result2, "*github.com/woodsbury/jmespath/internal/parser.InvalidFunctionCallError")
 
 //@ func parser.function2ExpArg
 //@   tags C02 C04 C08 C09
 //@   assigns p.curr, p.next, p.lex, fam:G_pos, fam:G_toks
-//@   requires pi: p.curr.Type == tokT(ppos) && p.next.Type == tokT(ppos + 1) && tokOK(p.curr.Type, p.curr.Value) && tokOK(p.next.Type, p.next.Value)
-//@   ensures pi: result2 == nil ==> p.curr.Type == tokT(ppos) && p.next.Type == tokT(ppos + 1) && tokOK(p.curr.Type, p.curr.Value) && tokOK(p.next.Type, p.next.Value)
+//@   requires pi: p.curr.Type == tokT(ppos) && p.next.Type == tokT(ppos + 1) && tokOK(p.curr.Type, p.curr.Value) && tokOK(p.next.Type, p.next.Value) && 0 <= p.lex.position && p.lex.position <= len(p.lex.expression)
+//@   ensures pi: result2 == nil ==> p.curr.Type == tokT(ppos) && p.next.Type == tokT(ppos + 1) && tokOK(p.curr.Type, p.curr.Value) && tokOK(p.next.Type, p.next.Value) && 0 <= p.lex.position && p.lex.position <= len(p.lex.expression)
 //@   ensures[C04] close: result2 == nil ==> tokT(ppos - 1) == const("lexer.CloseParenToken") && ppos > old(ppos) && result0 != nil
 //@   ensures[C02 C08] noargs: old(p.curr.Type) == const("lexer.CloseParenToken") ==> isType(result2, "*github.com/woodsbury/jmespath/internal/parser.InvalidFunctionCallError")
 
 //@ func parser.function2MapArg
 //@   tags C02 C04 C08 C09
 //@   assigns p.curr, p.next, p.lex, fam:G_pos, fam:G_toks
-//@   requires pi: p.curr.Type == tokT(ppos) && p.next.Type == tokT(ppos + 1) && tokOK(p.curr.Type, p.curr.Value) && tokOK(p.next.Type, p.next.Value)
-//@   ensures pi: result2 == nil ==> p.curr.Type == tokT(ppos) && p.next.Type == tokT(ppos + 1) && tokOK(p.curr.Type, p.curr.Value) && tokOK(p.next.Type, p.next.Value)
+//@   requires pi: p.curr.Type == tokT(ppos) && p.next.Type == tokT(ppos + 1) && tokOK(p.curr.Type, p.curr.Value) && tokOK(p.next.Type, p.next.Value) && 0 <= p.lex.position && p.lex.position <= len(p.lex.expression)
+//@   ensures pi: result2 == nil ==> p.curr.Type == tokT(ppos) && p.next.Type == tokT(ppos + 1) && tokOK(p.curr.Type, p.curr.Value) && tokOK(p.next.Type, p.next.Value) && 0 <= p.lex.position && p.lex.position <= len(p.lex.expression)
 //@   ensures[C04] close: result2 == nil ==> tokT(ppos - 1) == const("lexer.CloseParenToken") && ppos > old(ppos) && result0 != nil
 //@   ensures[C02 C08] noargs: old(p.curr.Type) == const("lexer.CloseParenToken") ==> isType(result2, "*github.com/woodsbury/jmespath/internal/parser.InvalidFunctionCallError")
 
 //@ func parser.function2To3Arg
 //@   tags C02 C04 C08 C09
 //@   assigns p.curr, p.next, p.lex, fam:G_pos, fam:G_toks
-//@   requires pi: p.curr.Type == tokT(ppos) && p.next.Type == tokT(ppos + 1) && tokOK(p.curr.Type, p.curr.Value) && tokOK(p.next.Type, p.next.Value)
-//@   ensures pi: result3 == nil ==> p.curr.Type == tokT(ppos) && p.next.Type == tokT(ppos + 1) && tokOK(p.curr.Type, p.curr.Value) && tokOK(p.next.Type, p.next.Value)
+//@   requires pi: p.curr.Type == tokT(ppos) && p.next.Type == tokT(ppos + 1) && tokOK(p.curr.Type, p.curr.Value) && tokOK(p.next.Type, p.next.Value) && 0 <= p.lex.position && p.lex.position <= len(p.lex.expression)
+//@   ensures pi: result3 == nil ==> p.curr.Type == tokT(ppos) && p.next.Type == tokT(ppos + 1) && tokOK(p.curr.Type, p.curr.Value) && tokOK(p.next.Type, p.next.Value) && 0 <= p.lex.position && p.lex.position <= len(p.lex.expression)
 //@   ensures[C04] close: result3 == nil ==> tokT(ppos - 1) == const("lexer.CloseParenToken") && ppos > old(ppos) && result0 != nil
 //@   ensures[C02 C08] noargs: old(p.curr.Type) == const("lexer.CloseParenToken") ==> isType(result3, "*github.com/woodsbury/jmespath/internal/parser.InvalidFunctionCallError")
 
 //@ func parser.function2To4Arg
 //@   tags C02 C04 C08 C09
 //@   assigns p.curr, p.next, p.lex, fam:G_pos, fam:G_toks
-//@   requires pi: p.curr.Type == tokT(ppos) && p.next.Type == tokT(ppos + 1) && tokOK(p.curr.Type, p.curr.Value) && tokOK(p.next.Type, p.next.Value)
-//@   ensures pi: result4 == nil ==> p.curr.Type == tokT(ppos) && p.next.Type == tokT(ppos + 1) && tokOK(p.curr.Type, p.curr.Value) && tokOK(p.next.Type, p.next.Value)
+//@   requires pi: p.curr.Type == tokT(ppos) && p.next.Type == tokT(ppos + 1) && tokOK(p.curr.Type, p.curr.Value) && tokOK(p.next.Type, p.next.Value) && 0 <= p.lex.position && p.lex.position <= len(p.lex.expression)
+//@   ensures pi: result4 == nil ==> p.curr.Type == tokT(ppos) && p.next.Type == tokT(ppos + 1) && tokOK(p.curr.Type, p.curr.Value) && tokOK(p.next.Type, p.next.Value) && 0 <= p.lex.position && p.lex.position <= len(p.lex.expression)
 //@   ensures[C04] close: result4 == nil ==> tokT(ppos - 1) == const("lexer.CloseParenToken") && ppos > old(ppos) && result0 != nil
 //@   ensures[C02 C08] noargs: old(p.curr.Type) == const("lexer.CloseParenToken") ==> isType(result4, "*github.com/woodsbury/jmespath/internal/parser.InvalidFunctionCallError")
 
 //@ func parser.function3To4Arg
 //@   tags C02 C04 C08 C09
 //@   assigns p.curr, p.next, p.lex, fam:G_pos, fam:G_toks
-//@   requires pi: p.curr.Type == tokT(ppos) && p.next.Type == tokT(ppos + 1) && tokOK(p.curr.Type, p.curr.Value) && tokOK(p.next.Type, p.next.Value)
-//@   ensures pi: result4 == nil ==> p.curr.Type == tokT(ppos) && p.next.Type == tokT(ppos + 1) && tokOK(p.curr.Type, p.curr.Value) && tokOK(p.next.Type, p.next.Value)
+//@   requires pi: p.curr.Type == tokT(ppos) && p.next.Type == tokT(ppos + 1) && tokOK(p.curr.Type, p.curr.Value) && tokOK(p.next.Type, p.next.Value) && 0 <= p.lex.position && p.lex.position <= len(p.lex.expression)
+//@   ensures pi: result4 == nil ==> p.curr.Type == tokT(ppos) && p.next.Type == tokT(ppos + 1) && tokOK(p.curr.Type, p.curr.Value) && tokOK(p.next.Type, p.next.Value) && 0 <= p.lex.position && p.lex.position <= len(p.lex.expression)
 //@   ensures[C04] close: result4 == nil ==> tokT(ppos - 1) == const("lexer.CloseParenToken") && ppos > old(ppos) && result0 != nil
 //@   ensures[C02 C08] noargs: old(p.curr.Type) == const("lexer.CloseParenToken") ==> isType(result4, "*github.com/woodsbury/jmespath/internal/parser.InvalidFunctionCallError")
 
 //@ func parser.functionVarArg
 //@   tags C02 C04 C08 C09
 //@   assigns p.curr, p.next, p.lex, fam:G_pos, fam:G_toks
-//@   requires pi: p.curr.Type == tokT(ppos) && p.next.Type == tokT(ppos + 1) && tokOK(p.curr.Type, p.curr.Value) && tokOK(p.next.Type, p.next.Value)
-//@   ensures pi: result1 == nil ==> p.curr.Type == tokT(ppos) && p.next.Type == tokT(ppos + 1) && tokOK(p.curr.Type, p.curr.Value) && tokOK(p.next.Type, p.next.Value)
+//@   requires pi: p.curr.Type == tokT(ppos) && p.next.Type == tokT(ppos + 1) && tokOK(p.curr.Type, p.curr.Value) && tokOK(p.next.Type, p.next.Value) && 0 <= p.lex.position && p.lex.position <= len(p.lex.expression)
+//@   ensures pi: result1 == nil ==> p.curr.Type == tokT(ppos) && p.next.Type == tokT(ppos + 1) && tokOK(p.curr.Type, p.curr.Value) && tokOK(p.next.Type, p.next.Value) && 0 <= p.lex.position && p.lex.position <= len(p.lex.expression)
 //@   ensures[C04] close: result1 == nil ==> tokT(ppos - 1) == const("lexer.CloseParenToken") && ppos > old(ppos) && len(result0) >= 1
 //@   ensures[C02 C08] noargs: old(p.curr.Type) == const("lexer.CloseParenToken") ==> isType(result1, "*github.com/woodsbury/jmespath/internal/parser.InvalidFunctionCallError")
 //@   loop 1
-//@     invariant p.curr.Type == tokT(ppos) && p.next.Type == tokT(ppos + 1) && tokOK(p.curr.Type, p.curr.Value) && tokOK(p.next.Type, p.next.Value) && fresh(nodes)
+//@     invariant p.curr.Type == tokT(ppos) && p.next.Type == tokT(ppos + 1) && tokOK(p.curr.Type, p.curr.Value) && tokOK(p.next.Type, p.next.Value) && 0 <= p.lex.position && p.lex.position <= len(p.lex.expression) && fresh(nodes)
 //@     invariant[C04] separator: (ppos == old(ppos) && len(nodes) == 0) || (tokT(ppos - 1) == const("lexer.CommaToken") && ppos > old(ppos) && len(nodes) >= 1)
 
 //@ func parser.function
 //@   tags C02 C04 C08 C09
 //@   assigns p.curr, p.next, p.lex, fam:G_pos, fam:G_toks
-//@   requires pi: p.curr.Type == tokT(ppos) && p.next.Type == tokT(ppos + 1) && tokOK(p.curr.Type, p.curr.Value) && tokOK(p.next.Type, p.next.Value)
+//@   requires pi: p.curr.Type == tokT(ppos) && p.next.Type == tokT(ppos + 1) && tokOK(p.curr.Type, p.curr.Value) && tokOK(p.next.Type, p.next.Value) && 0 <= p.lex.position && p.lex.position <= len(p.lex.expression)
 //@   requires call: p.next.Type == const("lexer.OpenParenToken")
-//@   ensures pi: result1 == nil ==> p.curr.Type == tokT(ppos) && p.next.Type == tokT(ppos + 1) && tokOK(p.curr.Type, p.curr.Value) && tokOK(p.next.Type, p.next.Value)
+//@   ensures pi: result1 == nil ==> p.curr.Type == tokT(ppos) && p.next.Type == tokT(ppos + 1) && tokOK(p.curr.Type, p.curr.Value) && tokOK(p.next.Type, p.next.Value) && 0 <= p.lex.position && p.lex.position <= len(p.lex.expression)
 //@   ensures[C09] progress: result1 == nil ==> ppos > old(ppos) + 1 && result0 != nil
 //@   ensures[C04] close: result1 == nil ==> tokT(ppos - 1) == const("lexer.CloseParenToken")
 //@   ensures[C02] table.abs: result1 == nil && old(p.curr.Value) == "abs" ==> isType(result0, "*github.com/woodsbury/jmespath/internal/parser.AbsNode")
@@ -281,3 +283,9 @@ package parser
 //@   tags C16 C04 C03
 //@   requires delimited: len(s) >= 2
 //@   ensures node: result1 == nil && result0 != nil
+
+//@ func Parse
+//@   tags C04 C09 C06
+//@   ensures result1 == nil ==> result0 != nil
+//@   at parse#1 assume p.curr.Type == tokT(ppos) && p.next.Type == tokT(ppos + 1)
+//@   note the ghost token stream is by definition what the lexer yields, starting with the two tokens read here
